@@ -320,7 +320,7 @@ def run_tree(case, V, C):
             _tp_checks(V, C, kind, dic["tp"], dic, x, np.random.default_rng(case["seed"] + 1), False, False)
         return
     if kind == "DifferenceNodeHeightSmooth":
-        tr = DifferenceNodeHeightTransform(tree, k=float(rng.choice([0.5, 2.0, 20.0])))
+        tr = DifferenceNodeHeightTransform(tree, k=float(rng.choice([0.5, 2.0, 20.0, -1.0])))  # (k <= 0: the hard maximum, by the class's own rule)
     else:
         tr = tree.transform
     x = tree._internal_heights.tensor.detach().clone()
